@@ -55,6 +55,8 @@ type Server struct {
 	wdone    chan struct{}
 	ReaderDone chan struct{}
 	FailWrites int32 // when set, the client's writes fail (half-broken connection)
+	quit       chan struct{}
+	quitOnce   sync.Once
 }
 
 // halfConn lets the scenario make the client's writes fail while reads go on.
@@ -75,7 +77,7 @@ func New(handler func(s *Server, r *Req)) *Server {
 	c, sv := net.Pipe()
 	s := &Server{S: sv, notify: make(chan struct{}, 1), tagsOut: map[uint16]uint8{},
 		fids: map[uint64]string{}, pendBind: map[uint16]uint64{}, pendUnbind: map[uint16]uint64{},
-		Handler: handler, wq: make(chan []byte, 1<<16), wdone: make(chan struct{}), ReaderDone: make(chan struct{})}
+		Handler: handler, wq: make(chan []byte, 1<<16), wdone: make(chan struct{}), ReaderDone: make(chan struct{}), quit: make(chan struct{})}
 	s.C = halfConn{c, s}
 	go s.reader()
 	go s.writer()
@@ -91,7 +93,13 @@ func (s *Server) kick() {
 
 func (s *Server) writer() {
 	defer close(s.wdone)
-	for b := range s.wq {
+	for {
+		var b []byte
+		select {
+		case b = <-s.wq:
+		case <-s.quit:
+			return
+		}
 		if b == nil {
 			s.S.Close()
 		} else if s.werr == nil {
@@ -259,7 +267,11 @@ func (s *Server) account(frame []byte) {
 // SendRaw queues arbitrary bytes to the client (no accounting).
 func (s *Server) SendRaw(b []byte) {
 	atomic.AddInt64(&s.wpending, 1)
-	s.wq <- b
+	select {
+	case s.wq <- b:
+	case <-s.quit:
+		atomic.AddInt64(&s.wpending, -1)
+	}
 }
 
 // ReplyFrame accounts and queues a reply frame.
@@ -276,7 +288,11 @@ func (s *Server) Reply(t uint8, tag uint16, vals ...any) {
 // CloseAfterWrites closes our end once everything queued has been written.
 func (s *Server) CloseAfterWrites() {
 	atomic.AddInt64(&s.wpending, 1)
-	s.wq <- nil
+	select {
+	case s.wq <- nil:
+	case <-s.quit:
+		atomic.AddInt64(&s.wpending, -1)
+	}
 }
 
 // Close closes our end immediately.
@@ -350,10 +366,7 @@ func (s *Server) BoundFids() int {
 // Shutdown releases goroutines.
 func (s *Server) Shutdown() {
 	s.S.Close()
-	func() {
-		defer func() { recover() }()
-		close(s.wq)
-	}()
+	s.quitOnce.Do(func() { close(s.quit) })
 }
 
 // VersionHandler answers Tversion like a conforming server (echoing msize
